@@ -1077,8 +1077,13 @@ def I2(ctx, rule, tb, inc_idx):
         inner = strip_refs(expr_operand(tb, t["args"][0]))
         pushes = False
         for c in walk_expr(inner):
+            roots_ = []
             if c.kind == "call" and c[1] in fb.bodies:
-                for bx in m.reach_bodies(c[1]):
+                roots_.append(c[1])
+            elif c.kind == "agg" and c[1] in ("closure", "coroutine") and c[2] in fb.bodies:
+                roots_.append(c[2])     # the tracking stream written in place: `stream::poll_fn(move |cx| rx.poll_recv(cx).map(.. push ..))`
+            for r_ in roots_:
+                for bx in m.reach_bodies(r_):
                     if any((callee_path(t2) or "").endswith("Vec::<T, A>::push") for _, t2 in bx.calls()):
                         pushes = True
         arms[arm] = (pushes, bb)
